@@ -51,12 +51,22 @@ def _has_await(st: ast.AST) -> bool:
     return any(isinstance(n, (ast.Await, ast.AsyncFor, ast.AsyncWith)) for n in own_nodes(st)) or isinstance(st, (ast.AsyncFor, ast.AsyncWith))
 
 
+def _delegates(fn: ast.AST) -> bool:
+    """the method gets its item from self.receive() instead of the queue"""
+    return any(isinstance(c, ast.Call) and ast.unparse(c.func) == "self.receive" for c in ast.walk(fn)) and not any(
+        isinstance(c, ast.Call) and ast.unparse(c.func).endswith("_queue.get") for c in ast.walk(fn))
+
+
 def rule_A1(ctx) -> None:
     mod = ctx.repo.mod(M_CHANNEL)
     n_inst = 0
     for m in ("receive", "__anext__"):
         fn = mod.func(f"{CLS}.{m}")
         ctx.analysed(f"{CLS}.{m}")
+        if m == "__anext__" and _delegates(fn):
+            ctx.proved("A1", f"{m}:waiting_receivers-pairing", mod.loc(fn), "delegates to receive()")
+            n_inst += 1
+            continue
         g = CFG(fn)
         incs = _stmt_nodes(g, lambda s: _is_aug(s, "_waiting_receivers", ast.Add))
         decs = {nd.id for nd in _stmt_nodes(g, lambda s: _is_aug(s, "_waiting_receivers", ast.Sub))}
@@ -92,6 +102,9 @@ def rule_A2(ctx) -> None:
     n_inst = 0
     for m in ("receive", "__anext__"):
         fn = mod.func(f"{CLS}.{m}")
+        if m == "__anext__" and _delegates(fn):
+            ctx.proved("A2", f"{m}:task_done-after-successful-get", mod.loc(fn), "delegates to receive()")
+            continue
         g = CFG(fn)
         gets = _stmt_nodes(g, lambda s: _calls(s, "_queue.get"))
         dones = _stmt_nodes(g, lambda s: _calls(s, "_queue.task_done"))
@@ -203,6 +216,9 @@ def rule_A4(ctx) -> None:
     mod = ctx.repo.mod(M_CHANNEL)
     for m in ("receive", "__anext__"):
         fn = mod.func(f"{CLS}.{m}")
+        if m == "__anext__" and _delegates(fn):
+            ctx.proved("A4", f"{m}:done-check-then-increment", mod.loc(fn), "delegates to receive()")
+            continue
         g = CFG(fn, implicit_exc=False)
         tests = [nd for nd in g.nodes if nd.kind == "test" and isinstance(nd.stmt, ast.If) and "self.done()" in ast.unparse(nd.stmt.test)]
         incs = _stmt_nodes(g, lambda s: _is_aug(s, "_waiting_receivers", ast.Add))
@@ -292,6 +308,21 @@ def rule_A5(ctx) -> None:
         ctx.refuted("A5", "sentinel:only-flush-puts", ",".join(sorted(putters)) or "none", mod.loc(cls), f"the flush sentinel is put by {sorted(putters)}; only _flush_queue may inject it")
     for m in ("receive", "__anext__"):
         fn = mod.func(f"{CLS}.{m}")
+        if m == "__anext__" and _delegates(fn):
+            # end of stream is receive()'s None: it must be recognised by identity, a falsy *item* is a legitimate item
+            tests_ = [n for n in ast.walk(fn) if isinstance(n, ast.If) and any(isinstance(x, ast.Raise) and "StopAsyncIteration" in ast.unparse(x) for x in ast.walk(n))]
+            ident = [t for t in tests_ if isinstance(t.test, ast.Compare) and isinstance(t.test.ops[0], (ast.Is, ast.IsNot)) and
+                     any(isinstance(c, ast.Constant) and c.value is None for c in t.test.comparators)]
+            truthy = [t for t in tests_ if not isinstance(t.test, ast.Compare)]
+            if truthy:
+                ctx.refuted("A5", f"{m}:sentinel-never-returned", "truthiness-test", mod.loc(truthy[0]),
+                            f"__anext__ ends the iteration on `{ast.unparse(truthy[0].test)}`: a falsy item (0, '', a message with only default values) is dequeued and dropped and the iteration stops early",
+                            "send Ping(seq=0) through the channel and iterate with async for")
+            elif ident:
+                ctx.proved("A5", f"{m}:sentinel-never-returned", mod.loc(fn), "delegates to receive(); end recognised by `is None`")
+            else:
+                ctx.inconclusive("A5", f"{m}:sentinel-never-returned", "delegating __anext__ without a recognisable end-of-stream test", mod.loc(fn))
+            continue
         g = CFG(fn, implicit_exc=False)
         tests = [nd for nd in g.nodes if nd.kind == "test" and isinstance(nd.stmt, ast.If) and isinstance(nd.stmt.test, ast.Compare)
                  and any(isinstance(c, ast.Attribute) and c.attr == s for c in [nd.stmt.test.left] + nd.stmt.test.comparators)]
@@ -354,6 +385,9 @@ def rule_A6(ctx) -> None:
                     return "else"
         return "top"
 
+    if _delegates(mod.func(f"{CLS}.__anext__")):
+        ctx.proved("A6", "receive~__anext__", mod.loc(mod.func(f"{CLS}.__anext__")), "__anext__ delegates to receive()")
+        return
     a = shape(mod.func(f"{CLS}.receive"))
     b = shape(mod.func(f"{CLS}.__anext__"))
     if a == b:
@@ -448,6 +482,18 @@ def rule_G6(ctx, rule: str = "G6") -> None:
         ctx.proved(rule, "_stream_unary:send-before-recv", mod.loc(f))
     else:
         ctx.refuted(rule, "_stream_unary:send-before-recv", "order", mod.loc(f), "_stream_unary does not await _send_messages before recv_message")
+    for q in ("ServiceStub._stream_unary", "ServiceStub._stream_stream"):
+        f = mod.func(q)
+        g = CFG(f, implicit_exc=False)
+        sr = {nd.id for nd in _stmt_nodes(g, lambda s: _calls(s, ".send_request") and _has_await(s))}
+        sm2 = _stmt_nodes(g, lambda s: _calls(s, "_send_messages"))
+        dom = g.dominators(labels=normal_edge)
+        if sm2 and sr and all(dom[x.id] & sr for x in sm2):
+            ctx.proved(rule, f"{q.split('.')[-1]}:send_request-before-messages", mod.loc(f))
+        else:
+            ctx.refuted(rule, f"{q.split('.')[-1]}:send_request-before-messages", "missing", mod.loc(f),
+                        f"{q.split('.')[-1]} does not `await stream.send_request()` before sending the request messages: with an empty request stream the request is never opened and stream.end() fails",
+                        "call a client-streaming RPC with an empty iterator")
     f = mod.func("ServiceStub._stream_stream")
     g = CFG(f)
     loops = [nd for nd in g.nodes if nd.kind == "loop" and isinstance(nd.stmt, ast.AsyncFor)]
